@@ -81,6 +81,92 @@ CLAIMED = {
         "Display impls (C08).",
    note=TRUST_MIR + "Display impls render their values; structopt fills Opts from the command line.",
    design="4/C19"),
+ "C01": dict(
+   technique="call-graph effect rule, table extraction, path summaries (symbolic terms + path conditions) of the operator functions with a recognised loop closed form, inductive transducer check of the literal reader",
+   text="Decides the structural and per-path facts exactness rests on: nothing reachable from exact arithmetic touches a float "
+        "or a lossy conversion; the operator characters are wired to the matching BigRational operations with operands in order "
+        "(lexer run, op() run, dispatch table, 16 forwarding impls); every path of add/sub/mul/div/pow returns exactly the "
+        "specified term (pow through the closed form of its recognised counting loop); division only behind a zero test, 0^-n "
+        "only an error, recip only on a non-zero receiver; percent is /100; the fold is left to right; literals are read by a "
+        "reader proved to be the decimal transducer. Trusted: num's BigRational.",
+   note=TRUST_MIR + "num::BigRational / BigInt are exact. Path summaries are exhaustive over the paths of the analysed "
+        "functions; the loop of pow is summarised by a recogniser whose side conditions are checked.",
+   design="4/C01"),
+ "C02": dict(
+   technique="deviant-sibling rule on map updates, path summaries of add/sub and Compound::factor over symbolic maps, CFG edge rules on the cast arm",
+   text="Decides that zero powers never stay in a dimension map (every site that updates a stored power removes the entry when "
+        "the stored power becomes 0); that Compound::factor reaches 'commensurable' only after comparing sizes and every entry "
+        "of the two base maps; that only Ok(true) yields a number in +, - and `to` and the other verdicts only errors; and "
+        "that a plain number adopts the quantity's unit in either order (4 emptiness classes).",
+   note=TRUST_MIR + "BTreeMap's entry API behaves as documented. The summary of factor uses two symbolic entries per map.",
+   design="4/C02"),
+ "C03": dict(
+   technique="constant tables vs SI reference, path summaries of factor / mul / apply_conversion over symbolic maps compared with the specified composition, linearity of the 78 dimension tables",
+   text="Decides that prefixes are the SI powers of ten in all four tables; that factor() computes exactly v * PROD_source[10^"
+        "(prefix*power), to-base] * PROD_target[from-base, /10^(prefix*power)] for every combination of conversions (target "
+        "side = reversed inverse of the source side); that mul normalises both operands identically; that Factor conversions "
+        "are (n/d)^(+-power); that every dimension table is linear and affine closures are exact inverses. The algebraic laws "
+        "follow by group algebra (argued, not machine-checked).",
+   note=TRUST_MIR + "exact rational arithmetic (C01).",
+   design="4/C03"),
+ "C04": dict(
+   technique="path summaries of eval::pow, Compound::pow, Compound::mul (all emptiness classes), its mapping closure and reconstruct over symbolic maps",
+   text="Decides that a power raises the unit with checked multiplication (empty for exponent 0, error on overflow); that the "
+        "base merge of a product uses power*n on both arms and removes zero sums; that a re-derived unit sheds exactly the "
+        "power it is inserted with; that * passes n=+1 and / passes n=-1; that an empty side yields the other unit with "
+        "powers*n and unchanged prefixes. Not decided: that the reconstruction heuristic is value preserving for every mix.",
+   note=TRUST_MIR + "bases_match / inner_match are treated as an oracle returning some power (their result is used consistently).",
+   design="4/C04"),
+ "C05": dict(
+   technique="table extraction (AST attributes, scripted runs of the generated parser's MIR, static evaluation of the 78 unit tables) vs generator spec and an independent reference; exhaustive enumeration of the vocabulary under a longest-match model; path summary of eval::unit",
+   text="Decides that the generated token tables and per-token actions equal what data.toml prescribes; that each of the 78 "
+        "unit tables has the dimensions and exact scale of an independently authored reference (SI brochure, 1959 agreement, "
+        "NIST HB44); that the gram bias cancels; that every name alone and every typable prefix x name word (9481 words, "
+        "thorough: all two-name words) parses to a valid reading under a longest-match model; that `/` flips, `^n` applies to "
+        "the preceding unit and cancelling units disappear. Two known findings (pint, dalton) are pinned by existing tests.",
+   note=TRUST_MIR + "logos implements longest match on literal tokens (the `dal` backtracking quirk of logos 0.13 is outside this model).",
+   design="4/C05"),
+ "C06": dict(
+   technique="table extraction, typestate dataflow for the blank counter, offset agreement, finite inductive abstract interpretation of the precedence stack, exact character-partition run for blanks",
+   text="Decides the priority order to < +- < */ < ^; that no stale blank count is ever used; that nth and eat agree on the "
+        "offset; that a parenthesised group is a node and root-level blanks are not evaluated; that every White_Space "
+        "character lexes as a blank; and, inductively over all 15 invariant stacks x 4 priorities, that one turn of the "
+        "precedence loop equals the reference precedence-climbing step (closes exactly the tighter groups, keeps the stack "
+        "strictly increasing) and that the end closes all groups - i.e. precedence and left associativity for every sequence.",
+   note=TRUST_MIR + "syntree's close_at wraps everything since the checkpoint. The lexer's `+4` / `-4` signed-number rule is as documented.",
+   design="4/C06"),
+ "C07": dict(
+   technique="who-may-call census, overflow-site census, inductive product check of the reader against the decimal transducer (all flag states x byte classes, symbolic accumulator), abstract run of the lexer over literal shapes",
+   text="Decides that both routes use one reader on exactly the token text; that all fixed-width counters are checked; that, "
+        "with the accumulator standing for an arbitrary N and the counter for an arbitrary d, every turn of the main and "
+        "exponent loops performs the decimal transducer's step for every byte value and the final value is (-)N*10^(+-E)/10^d "
+        "(base case N=0,d=0) - an inductive proof of exact reading for literals of any length; and that each of the 48 "
+        "well-formed literal shapes is lexed as one NUMBER token.",
+   note=TRUST_MIR + "exact BigRational arithmetic (C01). Quick tier uses one representative per interval of byte values no comparison separates plus all digits; thorough all 256.",
+   design="4/C07"),
+ "C09": dict(
+   technique="affine-domain abstract interpretation of the conversion closures, path summary of apply_conversion over a symbolic power, provenance of the sole/power/direction arguments in factor, mul and reconstruct",
+   text="Decides that the Fahrenheit and Celsius maps are exactly the defining affine maps and mutually inverse for every "
+        "magnitude; that an offset conversion is performed only for a sole scale whose own power was compared equal to one, "
+        "once, in the right direction, and refused otherwise; that every caller passes len(map)==1, the entry's own power and "
+        "the right direction; and that prefix scaling and offset are composed in the right order on both sides.",
+   note=TRUST_MIR + "exact rational arithmetic.",
+   design="4/C09"),
+ "C11": dict(
+   technique="site census over the call graph with per-site discharge by rules evaluated in the same run (canonical form, integrality, zero-guard summaries, constant divisors, span provenance slices)",
+   text="Decides that every panicking construct in hand-written code reachable from the entry points is discharged by a "
+        "checked rule or is a frozen, commented exception, and that every error span is a node's span or the whole input. "
+        "Not decided: i32 overflow beyond the property's stated bounds (45 compiler-inserted overflow assertions are listed), "
+        "termination.",
+   note=TRUST_MIR + "library code (num, syntree, tantivy, std) does not panic on valid arguments.",
+   design="4/C11"),
+ "C13": dict(
+   technique="sibling agreement of path summaries, shared summaries of factor / mul / reconstruct, linearity of dimension tables",
+   text="Decides that + and - (and * and /) are siblings differing only in the operator, that unit adoption is symmetric, "
+        "that both operands of a product are normalised identically and re-derived units shed what they insert, and that "
+        "dimension tables are linear. The field laws themselves follow from these facts with exact arithmetic (argued).",
+   note=TRUST_MIR + "exact rational arithmetic (C01).",
+   design="4/C13"),
 }
 
 NA = {
